@@ -497,6 +497,18 @@ theorem idempotent_calls (c : Cfg) (d : Option Wl) (a b : Step) (oa ob : StepOut
 
 /-! ## walks -/
 
+/-- the driver evaluates the walk oracles on `valsOf` of the implementation's results; for the model's own results
+    that is `runV`, the list the walk theorems speak about -/
+theorem valsOf_run (c : Cfg) (steps : List Step) : ∀ d, valsOf (run c d steps) = runV c d steps := by
+  induction steps with
+  | nil => intro d; rfl
+  | cons s ss ih =>
+    intro d
+    simp only [run, runV]
+    cases step c d s with
+    | panic => rfl
+    | val o => simp only [valsOf, ih]
+
 /-- a step on an existing workload leaves a workload -/
 theorem step_some (c : Cfg) (d : Wl) (s : Step) (o : StepOut) (h : step c (some d) s = .val o) :
     ∃ d', o.wl = some d' ∧ view d' = viewStep (view d) s o := by
